@@ -25,6 +25,7 @@ import (
 	"google.golang.org/protobuf/reflect/protorange"
 	"google.golang.org/protobuf/reflect/protoreflect"
 	"google.golang.org/protobuf/reflect/protoregistry"
+	"google.golang.org/protobuf/types/dynamicpb"
 	"google.golang.org/protobuf/types/known/anypb"
 	"google.golang.org/protobuf/types/known/durationpb"
 	"google.golang.org/protobuf/types/known/structpb"
@@ -400,7 +401,50 @@ var rangeAnyTypes = []protoreflect.MessageType{
 	(&testpb.TestAllTypes{}).ProtoReflect().Type(),
 }
 
+// boundary corpus: empty message, only unknown fields, Any in its resolvable /
+// unresolvable / malformed / nested forms, both bool map keys, message lists
+func rangeCorpus(c *Ctx) {
+	unk := []byte{0xf8, 0xff, 0xff, 0xff, 0x0f, 0x01} // field 536870911 varint 1
+	mustAny := func(m proto.Message) *anypb.Any {
+		a, err := anypb.New(m)
+		if err != nil {
+			panic(err)
+		}
+		return a
+	}
+	onlyUnknown := &testpb.TestAllTypes{}
+	onlyUnknown.ProtoReflect().SetUnknown(unk)
+	nested := &textpb2.Nested{OptString: proto.String("x"), OptNested: &textpb2.Nested{OptString: proto.String("y")}}
+	anyWithUnknown := mustAny(nested)
+	anyWithUnknown.ProtoReflect().SetUnknown(unk)
+	ms := []proto.Message{
+		&testpb.TestAllTypes{},
+		onlyUnknown,
+		&anypb.Any{},
+		mustAny(&textpb2.Nested{}),
+		mustAny(nested),
+		anyWithUnknown,
+		&anypb.Any{TypeUrl: "type.googleapis.com/no.such.Type", Value: []byte{1, 2}},
+		&anypb.Any{TypeUrl: "type.googleapis.com/pb2.Nested", Value: []byte{0xff}},
+		&anypb.Any{TypeUrl: "pb2.Nested"},
+		mustAny(mustAny(mustAny(nested))),
+		&textpb2.KnownTypes{OptAny: mustAny(&durationpb.Duration{Seconds: 1}), OptDuration: &durationpb.Duration{}},
+		&testpb.TestAllTypes{
+			MapBoolBool:           map[bool]bool{true: false, false: true},
+			MapInt32Int32:         map[int32]int32{-1: 1, 0: 2, 7: 3, -100: 4},
+			MapStringNestedMessage: map[string]*testpb.TestAllTypes_NestedMessage{"": {}, "b": {A: proto.Int32(1)}, "a": nil, "é": {}},
+			RepeatedNestedMessage: []*testpb.TestAllTypes_NestedMessage{{}, {A: proto.Int32(2)}, {Corecursive: onlyUnknown}},
+			RepeatedInt32:         []int32{0, 0, 0},
+			OptionalNestedMessage: &testpb.TestAllTypes_NestedMessage{},
+		},
+	}
+	for _, m := range ms {
+		rangeOne(c, m)
+	}
+}
+
 func famRange(c *Ctx) {
+	rangeCorpus(c)
 	for c.Cases < c.N {
 		g := &wpiGen{c: c, fill: 8 + c.Intn(25), depth: 1 + c.Intn(3), anyTypes: rangeAnyTypes, anyBad: 20, unknown: true, ext: true}
 		mt := rangeTypes[c.Intn(len(rangeTypes))]
@@ -415,6 +459,16 @@ func famRange(c *Ctx) {
 			// make sure the Any field is populated often (its expansion is the interesting case)
 			if fd := mt.Descriptor().Fields().ByName("opt_any"); fd != nil && !m.ProtoReflect().Has(fd) {
 				g.fillField(m.ProtoReflect(), fd, 3)
+			}
+		}
+		if c.Intn(4) == 0 {
+			// the same content as a dynamicpb message (another implementation of protoreflect.Message)
+			if b, err := (proto.MarshalOptions{AllowPartial: true}).Marshal(m); err == nil {
+				dm := dynamicpb.NewMessage(mt.Descriptor())
+				if (proto.UnmarshalOptions{AllowPartial: true}).Unmarshal(b, dm) == nil {
+					m = dm
+					c.Stat("dynamicpb_messages")
+				}
 			}
 		}
 		rangeOne(c, m)
